@@ -122,6 +122,20 @@ Theorem C06_roundtrip_I4_I8 : forall u, 0 <= u < 2 ^ 32 -> c_cast I8 I4 (c_cast 
 Proof. exact roundtrip_I4_I8. Qed.
 Print Assumptions C06_roundtrip_I4_I8.
 
+Theorem C06_roundtrip_I4_R8 : forall u, 0 <= u < 2 ^ 32 -> c_cast R8 I4 (c_cast I4 R8 u) = u.
+Proof. exact roundtrip_I4_R8. Qed.
+Print Assumptions C06_roundtrip_I4_R8.
+
+Theorem C06_roundtrip_I8_R8 : forall u, 0 <= u < 2 ^ 64 -> Z.abs (sgn 64 u) <=? 2 ^ 53 = true ->
+  c_cast R8 I8 (c_cast I8 R8 u) = u.
+Proof. exact roundtrip_I8_R8. Qed.
+Print Assumptions C06_roundtrip_I8_R8.
+
+Theorem C06_roundtrip_R4_R8 : forall u, 0 <= u < 2 ^ 32 -> is_nan32 u = false ->
+  c_cast R8 R4 (c_cast R4 R8 u) = u.
+Proof. exact roundtrip_R4_R8. Qed.
+Print Assumptions C06_roundtrip_R4_R8.
+
 (* the hypotheses are satisfiable and the conversions are the expected ones on concrete values *)
 Example C06_ex_halfway_even : c_cast I4 R4 16777217 = 1266679808 /\ c_cast I4 R4 16777219 = 1266679810.
 Proof. vm_compute. split; reflexivity. Qed.
